@@ -36,6 +36,10 @@ def keyfn(line, code):
 
 
 def run(ctx):
+    import clilib
+    clilib.stream(ctx, "cliverdict", gen.cliverdict_lines(ctx.rng.fork("cliverdict"), 1, 5, 400 if ctx.quick else 8000, (0, 1), 4, 4, 16, False),
+                  "cmr-regular: verdict line vs. the definition-level oracle on the matrix parsed from the input bytes",
+                  lambda c: gen.CLIVERDICT_CODES.get(c, str(c)))
     q = ctx.quick
     cs = cfgs()
     lines = []
